@@ -31,14 +31,37 @@ func kindOf(t types.Type) bkind {
 	if k, ok := kindCache[t]; ok {
 		return k
 	}
+	cutoffFlag = false
 	k := kindDepth(t, 0)
 	kindCache[t] = k
+	if cutoffFlag && k == kNone {
+		// the search for byte memory was cut off before an answer was found: not known to be harmless
+		cutoffTypes[t] = true
+	}
 	return k
 }
 
+var cutoffFlag bool
+var visiting = map[types.Type]bool{}
+var cutoffTypes = map[types.Type]bool{}
+
 func kindDepth(t types.Type, d int) bkind {
-	if t == nil || d > 4 {
+	if t == nil {
 		return kNone
+	}
+	if visiting[t] {
+		return kNone // a cycle: bytes are reachable iff they are along an acyclic path
+	}
+	if d > 12 {
+		switch t.Underlying().(type) {
+		case *types.Struct, *types.Pointer, *types.Slice, *types.Array, *types.Map:
+			cutoffFlag = true
+		}
+		return kNone
+	}
+	if _, named := t.(*types.Named); named {
+		visiting[t] = true
+		defer delete(visiting, t)
 	}
 	switch u := t.Underlying().(type) {
 	case *types.Slice:
@@ -123,6 +146,11 @@ type node struct {
 	pos  int    // ret / escape-by-return: result position (-1 otherwise)
 	why  string // escape/write: "mut" (written through) or "ret" (kept); for diagnostics: source line
 	line int
+	// op == "call": the possible library callees, the argument registers per callee parameter index, and
+	// (kids[0]) the effect the translator attributes to the call
+	callees []string
+	shifts  []int // 1: the callee is a bound method value, its receiver is not among the arguments
+	cargs   [][]int
 }
 
 func nSeq(kids []*node) *node { return &node{op: "seq", kids: kids} }
@@ -147,6 +175,8 @@ func (n *node) empty() bool {
 			}
 		}
 		return true
+	case "call":
+		return len(n.records()) == 0 && n.kids[0].empty()
 	}
 	return false
 }
@@ -223,15 +253,86 @@ func (n *node) coq(b *strings.Builder) {
 		b.WriteString("SLoop (")
 		n.kids[0].coq(b)
 		b.WriteString(")")
+	case "call":
+		recs := n.records()
+		for _, r := range recs {
+			var as []string
+			for _, a := range r.args {
+				as = append(as, "["+joinInts(a)+"]")
+			}
+			fmt.Fprintf(b, "SCall %d [%s] (", r.idx, strings.Join(as, "; "))
+		}
+		n.kids[0].coq(b)
+		b.WriteString(strings.Repeat(")", len(recs)))
 	default:
 		panic("node op " + n.op)
 	}
 }
 
+// records: the call records of a call node whose callee is in the emitted table: (table index, argument
+// registers per parameter REGISTER of the callee)
+type callRec struct {
+	idx  int
+	args [][]int
+}
+
+func (n *node) records() []callRec {
+	var out []callRec
+	for ci, key := range n.callees {
+		idx, ok := tableIndex[key]
+		if !ok {
+			continue
+		}
+		d := tableDecl[key]
+		sh := 0
+		if ci < len(n.shifts) {
+			sh = n.shifts[ci]
+		}
+		args := make([][]int, d.tr.np)
+		any := false
+		for pi, r := range d.tr.paramReg {
+			if r >= 0 && r < d.tr.np && pi-sh >= 0 && pi-sh < len(n.cargs) {
+				args[r] = n.cargs[pi-sh]
+				if len(args[r]) > 0 {
+					any = true
+				}
+			}
+		}
+		if any {
+			out = append(out, callRec{idx, args})
+		}
+	}
+	return out
+}
+
+func (n *node) calls() int {
+	c := 0
+	if n.op == "call" {
+		c = len(n.records())
+	}
+	for _, k := range n.kids {
+		c += k.calls()
+	}
+	return c
+}
+
+func (n *node) canFail() bool {
+	switch n.op {
+	case "set", "write", "append", "copy", "store", "escape":
+		return true
+	}
+	for _, k := range n.kids {
+		if k.canFail() {
+			return true
+		}
+	}
+	return false
+}
+
 func (n *node) count() int {
 	c := 0
 	switch n.op {
-	case "seq", "if", "loop":
+	case "seq", "if", "loop", "call":
 		for _, k := range n.kids {
 			c += k.count()
 		}
@@ -278,22 +379,33 @@ func sameState(a, b astate) bool {
 	return true
 }
 
+// sharedBit: the object is not private to the function: a parameter, somebody else's object, or an object
+// built here that has been handed out.  Storing into a private object needs nothing; storing into a shared
+// one makes the stored value escape.
+const sharedBit = uint64(1) << 62
+const escapedBit = sharedBit
+
 type analyzer struct {
-	np        int      // parameter registers are 0..np-1
-	need      []bool   // parameter must be owned by the caller (written through or kept)
-	mut, keep []bool   // why
-	resRoots  []uint64 // per result position: union of the root sets returned
-	resSeen   []bool
-	diag      []string // places where memory that is not the function's is written or escapes
-	strictNo  []bool   // (strict mode) parameters that may NOT be needed: diagnostics only
+	np       int      // parameter registers are 0..np-1
+	mut      []bool   // parameter is written through: the caller must own it (write sense)
+	keep     []bool   // parameter is kept / returned by an API function: the caller must own it (keep sense)
+	stored   []bool   // something is stored INTO the parameter object
+	links    []uint64 // per parameter register p: parameter registers (and opaqueBit) stored into p
+	resRoots []uint64 // per result position: union of the root sets returned
+	resSeen  []bool
+	diag     []string // places where memory that is not the function's is written or escapes
+	strictW  []bool   // (API function) parameters that may NOT be written: diagnostics only
+	strictK  []bool   // (API function) parameters that may NOT be kept
 }
 
-func (a *analyzer) owned(rs uint64) bool {
+// keepable: everything the register may show is memory allocated in the call or memory of a parameter the
+// caller must own in the keep sense anyway
+func (a *analyzer) keepable(rs uint64) bool {
 	if rs&opaqueBit != 0 {
 		return false
 	}
 	for p := 0; p < a.np; p++ {
-		if rs&(1<<uint(p)) != 0 && !a.need[p] {
+		if rs&(1<<uint(p)) != 0 && !a.keep[p] {
 			return false
 		}
 	}
@@ -306,14 +418,16 @@ func (a *analyzer) check(rs uint64, n *node, keep bool) {
 	}
 	for p := 0; p < a.np; p++ {
 		if rs&(1<<uint(p)) != 0 {
-			a.need[p] = true
 			if keep {
 				a.keep[p] = true
+				if a.strictK != nil && a.strictK[p] {
+					a.diag = append(a.diag, fmt.Sprintf("line %d: %s (keep) on parameter register %d", n.line, n.op, p))
+				}
 			} else {
 				a.mut[p] = true
-			}
-			if a.strictNo != nil && a.strictNo[p] {
-				a.diag = append(a.diag, fmt.Sprintf("line %d: %s on parameter register %d", n.line, n.op, p))
+				if a.strictW != nil && a.strictW[p] {
+					a.diag = append(a.diag, fmt.Sprintf("line %d: %s (write) on parameter register %d", n.line, n.op, p))
+				}
 			}
 		}
 	}
@@ -326,7 +440,7 @@ func (a *analyzer) run(n *node, st astate) (astate, astate) {
 	}
 	get := func(v int) uint64 {
 		if v < 0 || v >= len(st) {
-			return opaqueBit
+			return opaqueBit | sharedBit
 		}
 		return st[v]
 	}
@@ -342,7 +456,7 @@ func (a *analyzer) run(n *node, st astate) (astate, astate) {
 		}
 		st[n.r] = u
 	case "opaque":
-		st[n.r] = opaqueBit
+		st[n.r] = opaqueBit | sharedBit
 	case "set", "write":
 		a.check(get(n.v), n, false)
 	case "append":
@@ -351,20 +465,40 @@ func (a *analyzer) run(n *node, st astate) (astate, astate) {
 	case "copy":
 		a.check(get(n.r), n, false)
 	case "store":
-		if a.owned(get(n.r)) {
-			st[n.r] = get(n.r) | get(n.v)
-		} else {
-			a.check(get(n.v), n, true)
+		xr, vr := get(n.r), get(n.v)
+		for p := 0; p < a.np; p++ {
+			if xr&(1<<uint(p)) != 0 {
+				a.stored[p] = true
+			}
 		}
+		if xr&sharedBit == 0 {
+			// a private object: it now also shows what v shows
+		} else {
+			if a.keepable(xr) {
+				// a parameter object the caller owns: record the link for the call sites
+				for p := 0; p < a.np; p++ {
+					if xr&(1<<uint(p)) != 0 {
+						a.links[p] |= vr &^ sharedBit
+					}
+				}
+			}
+			a.check(vr, n, true)
+		}
+		st[n.r] = xr | vr&^sharedBit
 	case "escape":
 		a.check(get(n.v), n, true)
 		if n.pos >= 0 {
-			a.resRoots[n.pos] |= get(n.v)
+			a.resRoots[n.pos] |= get(n.v) &^ sharedBit
 			a.resSeen[n.pos] = true
 		}
+		if n.v >= 0 && n.v < len(st) {
+			st[n.v] |= sharedBit
+		}
 	case "ret":
-		a.resRoots[n.pos] |= get(n.v)
+		a.resRoots[n.pos] |= get(n.v) &^ sharedBit
 		a.resSeen[n.pos] = true
+	case "call":
+		return a.run(n.kids[0], st)
 	case "skip":
 	case "jump":
 		return nil, st
